@@ -23,7 +23,7 @@ func init() {
 }
 
 func C14Params(thorough bool) harness.GenParams {
-	p := harness.GenParams{MaxItems: 5, MaxOps: 8, MaxPages: 256, NoFill: false}
+	p := harness.GenParams{MaxItems: 5, MaxOps: 8, MaxPages: 256, NoFill: false, Overflow: true, Reopen: true, LimitOpen: true}
 	if thorough {
 		p.MaxItems = 10
 	}
